@@ -49,9 +49,11 @@ class Lock:
 def gen_consts():
     """the two translators: constants/tables and the structure codecs (field orders, types, size_in_bytes)"""
     msgs = []; ok = True
-    for tool, name in (('gen_consts.py', 'Consts.lean'), ('gen_codecs.py', 'Codecs.lean')):
+    for tool, name in (('gen_consts.py', 'Consts.lean'), ('gen_codecs.py', 'Codecs.lean'), ('gen_fns.py', 'Fns.lean')):
         out = os.path.join(LEAN, 'Sucds', 'Gen', name)
-        r = subprocess.run([sys.executable, os.path.join(ROOT, 'tools', tool), REPO, out], capture_output=True, text=True)
+        extra = ['--report', os.path.join(BUILD, 'gen_fns_report.json')] if tool == 'gen_fns.py' else []
+        os.makedirs(BUILD, exist_ok=True)
+        r = subprocess.run([sys.executable, os.path.join(ROOT, 'tools', tool), REPO, out] + extra, capture_output=True, text=True)
         ok = ok and r.returncode == 0; msgs.append((r.stdout + r.stderr).strip())
     return ok, '; '.join(msgs)
 
@@ -107,10 +109,19 @@ def lean_check(prop, tier='quick'):
             res['ok'] = False; res['errors'].append('translator: ' + msg); res['failed_modules'] = ['Sucds.Gen (translator)']
             res['obligations'] = 1; return res
         mod = 'Sucds.Props.%s' % prop
+        # theorems about the definitions generated from the function bodies (tools/gen_fns.py), when the property has them
+        gen_mod = mod + 'Gen'
+        has_gen = os.path.exists(os.path.join(LEAN, 'Sucds', 'Props', prop + 'Gen.lean'))
         t0 = time.time()
-        r = subprocess.run(['lake', 'build', mod, 'sucds_model'], cwd=LEAN, capture_output=True, text=True, env=ENV)
+        r = subprocess.run(['lake', 'build', mod, 'sucds_model'] + ([gen_mod] if has_gen else []), cwd=LEAN, capture_output=True, text=True, env=ENV)
         res['lake_s'] = round(time.time() - t0, 1)
         mods = lean_imports(mod)
+        if has_gen: mods = mods | lean_imports(gen_mod)
+        try:
+            rep = json.load(open(os.path.join(BUILD, 'gen_fns_report.json')))
+            res['translator'] = {'functions_translated': len(rep['translated']), 'not_translated': len(rep['untranslated']), 'parse_errors': rep['parse_errors']}
+        except Exception:
+            pass
         proof_mods = [m for m in mods if m.startswith('Sucds.Props.') or m.startswith('Sucds.Proofs.')]
         all_thms = []
         for m in proof_mods:
@@ -134,11 +145,15 @@ def lean_check(prop, tier='quick'):
             res['ok'] = False; res['errors'] += ['forbidden construct: ' + h for h in hits]
         # axiom audit of the property theorems
         thms = theorems_of(os.path.join(LEAN, 'Sucds', 'Props', prop + '.lean'))
+        if has_gen:
+            gthms = theorems_of(os.path.join(LEAN, 'Sucds', 'Props', prop + 'Gen.lean'))
+            res['generated_definition_theorems'] = gthms; thms = thms + gthms
         res['theorems'] = thms
         os.makedirs(os.path.join(LEAN, 'Audit'), exist_ok=True)
         audit = os.path.join(LEAN, 'Audit', prop + '.lean')
         with open(audit, 'w') as f:
             f.write('import %s\n' % mod)
+            if has_gen: f.write('import %s\n' % gen_mod)
             for t in thms: f.write('#print axioms %s\n' % t)
         r = subprocess.run(['lake', 'env', 'lean', audit], cwd=LEAN, capture_output=True, text=True, env=ENV)
         out = r.stdout + r.stderr
@@ -285,9 +300,13 @@ def compare(cfg, cases, impl, model):
     findings = []
     stats = {'lines': 0, 'spec_checked': 0, 'impl_none': 0, 'impl_err': 0, 'impl_panic': 0}
     for ci, c in enumerate(cases):
+        lost = False      # a constructor/mutator panicked on the implementation side only: its object is gone there
         for li, req in enumerate(c):
             I = impl[ci][li]; M, S, IS, MS = model[ci][li][:4]
             stats['lines'] += 1
+            if 'panic' in I and I != M and (req.startswith('new ') or req.startswith('m ')): lost = True
+            if lost and I.startswith('SCRIPT-ERROR') and not M.startswith('SCRIPT-ERROR'):
+                break     # a consequence of the panic already reported, not a defect of the script
             if I.startswith('none') or I == 'err': stats['impl_none' if I != 'err' else 'impl_err'] += 1
             if I == 'panic' or I.endswith(';panic'): stats['impl_panic'] += 1
             if M.startswith('SCRIPT-ERROR') or I.startswith('SCRIPT-ERROR'):
@@ -542,6 +561,8 @@ def main():
             'traces_validated_against_impl': sum(st['lines'] for st in stats_by_cfg.values()),
             'configurations': cfgs, 'stats_by_configuration': stats_by_cfg, 'corpus_cases': ncorpus,
             'leanchecker': lean.get('leanchecker'),
+            'function_translator': lean.get('translator'),
+            'theorems_about_generated_definitions': lean.get('generated_definition_theorems', []),
             'explanation': 'theorems over the Lean model re-checked by lake build against constants regenerated from /repo; model tied to /repo by running %d generated cases through the real code (%s) and the model driver, comparing implementation vs model (tie), implementation vs specification (oracle) and model vs specification' % (evaluations, ', '.join(cfgs)),
             'exhaustive': False,
         },
